@@ -260,3 +260,28 @@ def machine_factor(term, leaf, T):
             c = machine_const(l, T)
             return f * c, n + 1, x + (1 if uses_pow(l) else 0)
     raise Inconclusive("value path is not a chain of * and / by constants")
+
+
+def value_path_prefixes(term, leaf, T):
+    """Machine factors after each operation on the value path (in evaluation order) of a multiplicative body."""
+    from fractions import Fraction as Fr
+    if not has_leaf(term, leaf):
+        raise Inconclusive("no value")
+    k = term[0]
+    if k == "leaf":
+        return []
+    if k == "cast":
+        return value_path_prefixes(term[2], leaf, T)
+    if k in ("mul", "div"):
+        l, r = term[1], term[2]
+        if has_leaf(l, leaf) and not has_leaf(r, leaf):
+            pre = value_path_prefixes(l, leaf, T)
+            c = machine_const(r, T)
+            last = pre[-1] if pre else Fr(1)
+            return pre + [last * c if k == "mul" else last / c]
+        if has_leaf(r, leaf) and not has_leaf(l, leaf) and k == "mul":
+            pre = value_path_prefixes(r, leaf, T)
+            c = machine_const(l, T)
+            last = pre[-1] if pre else Fr(1)
+            return pre + [last * c]
+    raise Inconclusive("value path is not a chain of * and / by constants")
